@@ -15,9 +15,10 @@ iff `t₁ q ≠ t₂ q` for the trees before and after the edit.
 
 `rerun_sound`: if the trees before and after an edit (any edit: any number of files and directories
 added, changed, deleted, anywhere) agree at every path announced by the run on the first tree —
-that is, if cargo does **not** run the script again — then the script resolves to exactly the same
-calls on the second tree, so a run would ask for the same files with the same bytes and print the
-same lines: nothing is stale.  `change_triggers_rerun` is the contrapositive the property states.
+that is, if cargo does **not** run the script again — then every call of the script gets exactly
+what it got before (the same listing, the same bytes, the same failure), so a run would ask for the
+same files with the same bytes and print the same lines: nothing is stale.
+`change_triggers_rerun` is the contrapositive, which is what the property states.
 -/
 namespace Ructe.C17Rerun
 open Nom
@@ -45,126 +46,99 @@ theorem withStatics_some (b : Build) : ∃ s, (b.withStatics feat).statics = som
   | none => exact ⟨_, rfl⟩
   | some s => exact ⟨s, by simp [h]⟩
 
-/-- every call that looks at a path prints that path's own line -/
-theorem step_announces_root (t : InFS) (b : Build) (s : SOp) (o : Op) (q : Bytes)
-    (hr : s.resolve t = some o) (hq : s.root = some q) :
-    rerun q ∈ (Build.step ue ua feat outdir b o).out.stdout := by
+theorem failed_announces (b : Build) (st : Bool) (q : Bytes) :
+    rerun q ∈ (Build.step ue ua feat outdir b (.failed st q)).out.stdout := by
+  simp [Build.step, Log.print, Log.read, rerun]
+
+/-- every call that looks at a path prints that path's own line — whether it succeeds or fails -/
+theorem step_announces_root (t : InFS) (b : Build) (s : SOp) (q : Bytes) (hq : s.root = some q) :
+    rerun q ∈ (Build.step ue ua feat outdir b (s.resolve t)).out.stdout := by
   cases s with
   | compileTemplates d =>
     simp only [SOp.root, Option.some.injEq] at hq; subst hq
-    simp only [SOp.resolve] at hr
-    split at hr <;> simp only [Option.some.injEq, reduceCtorEq] at hr
-    subst hr
-    simp only [Build.step]
-    rw [handleDir]
-    apply (handleEntries_grow ue _ _ _ _ _).1.stdout.subset
-    simp [Log.print, Log.read, rerun]
+    simp only [SOp.resolve]
+    split
+    · simp only [Build.step]
+      rw [handleDir]
+      apply (handleEntries_grow ue _ _ _ _ _).1.stdout.subset
+      simp [Log.print, Log.read, rerun]
+    · exact failed_announces ue ua feat outdir b _ _
   | addFile p =>
     simp only [SOp.root] at hq
     cases hn : nameAndExt (baseName p) with
     | none => simp [hn] at hq
     | some v =>
       simp only [hn, Option.some.injEq] at hq; subst hq
-      simp only [SOp.resolve, hn] at hr
-      split at hr <;> simp only [Option.some.injEq, reduceCtorEq] at hr
-      subst hr
-      obtain ⟨st, hst⟩ := withStatics_some feat b
-      simp only [Build.step, hst, hn]
-      simp [Log.print, Log.read, rerun]
+      simp only [SOp.resolve, hn]
+      split
+      · obtain ⟨st, hst⟩ := withStatics_some feat b
+        simp only [Build.step, hst, hn]
+        simp [Log.print, Log.read, rerun]
+      · exact failed_announces ue ua feat outdir b _ _
   | addFiles d =>
     simp only [SOp.root, Option.some.injEq] at hq; subst hq
-    simp only [SOp.resolve] at hr
-    split at hr <;> simp only [Option.some.injEq, reduceCtorEq] at hr
-    subst hr
-    obtain ⟨st, hst⟩ := withStatics_some feat b
-    simp only [Build.step, hst]
-    apply (addFilesFlat_grow ue ua _ _ _ _).stdout.subset
-    simp [Log.print, Log.read, rerun]
+    simp only [SOp.resolve]
+    split
+    · obtain ⟨st, hst⟩ := withStatics_some feat b
+      simp only [Build.step, hst]
+      apply (addFilesFlat_grow ue ua _ _ _ _).stdout.subset
+      simp [Log.print, Log.read, rerun]
+    · exact failed_announces ue ua feat outdir b _ _
   | addFileAs p u => simp [SOp.root] at hq
   | addFilesAs d to =>
     simp only [SOp.root, Option.some.injEq] at hq; subst hq
-    simp only [SOp.resolve] at hr
-    split at hr <;> simp only [Option.some.injEq, reduceCtorEq] at hr
-    subst hr
-    obtain ⟨st, hst⟩ := withStatics_some feat b
-    simp only [Build.step, hst]
-    apply (addFilesAs_grow ue ua _ _ _ _ _).stdout.subset
-    simp [Log.print, Log.read, rerun]
+    simp only [SOp.resolve]
+    split
+    · obtain ⟨st, hst⟩ := withStatics_some feat b
+      simp only [Build.step, hst]
+      apply (addFilesAs_grow ue ua _ _ _ _ _).stdout.subset
+      simp [Log.print, Log.read, rerun]
+    · exact failed_announces ue ua feat outdir b _ _
   | addFileData p data => simp [SOp.root] at hq
 
 /-- … and the line is still there at the end of the run -/
-theorem roots_announced (t : InFS) (script : List SOp) (ops : List Op) (b : Build)
-    (h : resolveAll t script = some ops) (s : SOp) (hs : s ∈ script) (q : Bytes) (hq : s.root = some q) :
-    rerun q ∈ ((ops.foldl (Build.step ue ua feat outdir) b).finish outdir).stdout := by
+theorem roots_announced (t : InFS) (script : List SOp) (b : Build)
+    (s : SOp) (hs : s ∈ script) (q : Bytes) (hq : s.root = some q) :
+    rerun q ∈ (((script.map (SOp.resolve t)).foldl (Build.step ue ua feat outdir) b).finish outdir).stdout := by
   apply (Build.finish_grow outdir _).stdout.subset
-  induction script generalizing ops b with
+  induction script generalizing b with
   | nil => cases hs
   | cons s₀ rest ih =>
-    simp only [resolveAll] at h
-    cases h₀ : s₀.resolve t with
-    | none => simp [h₀] at h
-    | some o =>
-      cases hr : resolveAll t rest with
-      | none => simp [h₀, hr] at h
-      | some os =>
-        simp only [h₀, hr, Option.some.injEq] at h
-        subst h
-        simp only [List.foldl_cons]
-        rcases List.mem_cons.mp hs with rfl | hs'
-        · exact (Build.foldl_step_grow ue ua feat outdir os _).stdout.subset
-            (step_announces_root ue ua feat outdir t b s o q h₀ hq)
-        · exact ih os _ hr hs'
+    simp only [List.map_cons, List.foldl_cons]
+    rcases List.mem_cons.mp hs with rfl | hs'
+    · exact (Build.foldl_step_grow ue ua feat outdir _ _).stdout.subset
+        (step_announces_root ue ua feat outdir t b s q hq)
+    · exact ih _ hs'
 
 /-- **rerun_sound**: the trees agree wherever the first run announced a path (cargo sees no reason to
-run the script again) ⇒ the script resolves to the very same calls on the second tree -/
-theorem rerun_sound (t₁ t₂ : InFS) (script : List SOp) (ops : List Op)
-    (h₁ : resolveAll t₁ script = some ops)
-    (hagree : ∀ q, rerun q ∈ (buildLog ue ua feat outdir utils ops).stdout → t₁ q = t₂ q) :
-    resolveAll t₂ script = some ops := by
-  have hroot : ∀ s ∈ script, ∀ q, s.root = some q → t₁ q = t₂ q := fun s hs q hq =>
-    hagree q (roots_announced ue ua feat outdir t₁ script ops _ h₁ s hs q hq)
-  clear hagree
-  induction script generalizing ops with
-  | nil => simpa [resolveAll] using h₁
-  | cons s rest ih =>
-    simp only [resolveAll] at h₁ ⊢
-    rw [← resolve_congr t₁ t₂ s (hroot s (List.mem_cons_self ..))]
-    cases h₀ : s.resolve t₁ with
-    | none => simp [h₀] at h₁
-    | some o =>
-      cases hr : resolveAll t₁ rest with
-      | none => simp [h₀, hr] at h₁
-      | some os =>
-        simp only [h₀, hr, Option.some.injEq] at h₁
-        subst h₁
-        rw [ih os hr (fun s' hs' => hroot s' (List.mem_cons_of_mem _ hs'))]
+run the script again) ⇒ every call gets on the second tree exactly what it got on the first -/
+theorem rerun_sound (t₁ t₂ : InFS) (script : List SOp)
+    (hagree : ∀ q, rerun q ∈ (buildLog ue ua feat outdir utils (script.map (SOp.resolve t₁))).stdout → t₁ q = t₂ q) :
+    script.map (SOp.resolve t₂) = script.map (SOp.resolve t₁) := by
+  apply List.map_congr_left
+  intro s hs
+  exact (resolve_congr t₁ t₂ s (fun q hq =>
+    hagree q (roots_announced ue ua feat outdir t₁ script _ s hs q hq))).symm
 
 /-- hence nothing is stale: a run on the edited tree would produce exactly what the first run
 produced — same requests, same bytes, same lines — on every prior OUT_DIR state -/
-theorem no_rerun_nothing_stale (fs : FS) (t₁ t₂ : InFS) (script : List SOp) (o₁ : Out)
-    (h₁ : runScript ue ua feat fs outdir utils t₁ script = some o₁)
-    (hagree : ∀ q, rerun q ∈ o₁.stdout → t₁ q = t₂ q) :
-    runScript ue ua feat fs outdir utils t₂ script = some o₁ := by
-  unfold runScript at h₁ ⊢
-  cases hr : resolveAll t₁ script with
-  | none => simp [hr] at h₁
-  | some ops =>
-    simp only [hr, Option.map_some, Option.some.injEq] at h₁
-    subst h₁
-    rw [rerun_sound ue ua feat outdir utils t₁ t₂ script ops hr (fun q hq => hagree q (by simpa [build, runLog] using hq))]
-    rfl
+theorem no_rerun_nothing_stale (fs : FS) (t₁ t₂ : InFS) (script : List SOp)
+    (hagree : ∀ q, rerun q ∈ (runScript ue ua feat fs outdir utils t₁ script).stdout → t₁ q = t₂ q) :
+    runScript ue ua feat fs outdir utils t₂ script = runScript ue ua feat fs outdir utils t₁ script := by
+  unfold runScript
+  rw [rerun_sound ue ua feat outdir utils t₁ t₂ script (fun q hq => hagree q (by simpa [runScript, build, runLog] using hq))]
 
 /-- **change_triggers_rerun** (what the property says): if after an edit of the input tree a run of
-the build script would produce anything else than before (other bytes in some file, other lines, or
-a failure), then some path announced by the first run changed — cargo does run the script again -/
-theorem change_triggers_rerun (fs : FS) (t₁ t₂ : InFS) (script : List SOp) (o₁ : Out)
-    (h₁ : runScript ue ua feat fs outdir utils t₁ script = some o₁)
-    (hne : runScript ue ua feat fs outdir utils t₂ script ≠ some o₁) :
-    ∃ q, rerun q ∈ o₁.stdout ∧ t₁ q ≠ t₂ q := by
+the build script would produce anything else than before (other bytes in some file, other lines, a
+call that now fails), then some path announced by the first run changed — cargo does run the script
+again -/
+theorem change_triggers_rerun (fs : FS) (t₁ t₂ : InFS) (script : List SOp)
+    (hne : runScript ue ua feat fs outdir utils t₂ script ≠ runScript ue ua feat fs outdir utils t₁ script) :
+    ∃ q, rerun q ∈ (runScript ue ua feat fs outdir utils t₁ script).stdout ∧ t₁ q ≠ t₂ q := by
   apply Classical.byContradiction
   intro hno
   apply hne
-  apply no_rerun_nothing_stale ue ua feat outdir utils fs t₁ t₂ script o₁ h₁
+  apply no_rerun_nothing_stale ue ua feat outdir utils fs t₁ t₂ script
   intro q hq
   apply Classical.byContradiction
   intro hd
@@ -174,23 +148,17 @@ theorem change_triggers_rerun (fs : FS) (t₁ t₂ : InFS) (script : List SOp) (
 
 theorem ab_has_ext : nameAndExt (baseName [97, 46, 98]) = some ([97], [98]) := by decide
 
-/-- a script that looks at a directory and a file; `t₂` adds a file elsewhere: the run succeeds on
-`t₁` and resolves to the same calls on `t₂` -/
+/-- a script that looks at a directory and a file; `t₂` adds a file elsewhere: every call succeeds on
+`t₁` and gets the same on `t₂`; on a tree where the file is gone the call fails -/
 example :
     let t₁ : InFS := fun p => if p = [116] then some (.dir [.dir [115] []]) else if p = [97, 46, 98] then some (.file [1]) else none
     let t₂ : InFS := fun p => if p = [122] then some (.file [7]) else t₁ p
-    (resolveAll t₁ [.compileTemplates [116], .addFile [97, 46, 98]]).isSome = true ∧
-    resolveAll t₂ [.compileTemplates [116], .addFile [97, 46, 98]] =
-      resolveAll t₁ [.compileTemplates [116], .addFile [97, 46, 98]] := by
-  intro t₁ t₂
-  constructor <;> simp [resolveAll, SOp.resolve, ab_has_ext, t₁, t₂]
-
-/-- the announcement of a directory is needed: the pinned `add_files_as` (no line for
-sub-directories, finding #6) is still sound *here* only because the top directory's line covers the
-whole subtree under cargo's rule; a call that printed no line at all for its root would make
-`step_announces_root` false (`C17.pinned_add_files_as_counterexample` is the concrete case) -/
-example (t : InFS) (d : Bytes) (es : List Entry) (h : t d = some (.dir es)) :
-    (SOp.addFilesAs d []).resolve t = some (.addFilesAs d [] es) := by
-  simp [SOp.resolve, h]
+    let t₃ : InFS := fun p => if p = [97, 46, 98] then none else t₁ p
+    (SOp.addFile [97, 46, 98]).resolve t₁ = .addFile [97, 46, 98] [1] ∧
+    [SOp.compileTemplates [116], .addFile [97, 46, 98]].map (SOp.resolve t₂) =
+      [SOp.compileTemplates [116], .addFile [97, 46, 98]].map (SOp.resolve t₁) ∧
+    (SOp.addFile [97, 46, 98]).resolve t₃ = .failed true [97, 46, 98] := by
+  intro t₁ t₂ t₃
+  refine ⟨?_, ?_, ?_⟩ <;> simp [SOp.resolve, ab_has_ext, t₁, t₂, t₃]
 
 end Ructe.C17Rerun
